@@ -33,7 +33,7 @@ REQUIRED = {"post:marginal_likelihood": 100, "post:loo_likelihood": 100, "post:l
 
 def jobs(tier, seed):
     n_jobs = 16 if tier == "quick" else 32
-    return [{"name": f"score-{j}", "seed": seed, "j": j, "n_cases": 14 if tier == "quick" else 110,
+    return [{"name": f"score-{j}", "seed": seed, "j": j, "n_cases": 40 if tier == "quick" else 300,
              "n_select": 2 if tier == "quick" else 10} for j in range(n_jobs)]
 
 
